@@ -99,8 +99,14 @@ class HistParametricModel(ParametricModelBaseMixin, HistContainer):
             self._bin_evaluation_method = self._bin_evaluation_antiderivative
 
         self._density = density
+        # Factor between the stored bin contents and the predicted bin contents (number of entries for densities).
+        self._error_reference_scale = 1.0
 
     # -- private methods
+
+    def _get_error_reference(self):
+        # uncertainties relative to the model are relative to the predicted bin contents
+        return super(HistParametricModel, self)._get_error_reference() * self._error_reference_scale
 
     def _recalculate(self):
         # don't use parent class setter for 'data' -> set directly
